@@ -393,8 +393,10 @@ func (it *Interp) opOpenQuery(op *Op) {
 			}
 		}
 		it.run(op, true, func(b *Backend) {
-			b.openQ[op.Q].q.Close()
-			b.openQ[op.Q].done = true
+			if oq := b.openQ[op.Q]; oq != nil {
+				oq.q.Close()
+				oq.done = true
+			}
 		})
 	}
 }
